@@ -182,7 +182,8 @@ def handle (op : String) (args : List String) (impl : String) : String :=
     -- the EMPTY message → nobody signed the (non-empty) header: by `pgp_verifier_sound` success would need a key that
     -- accepts this signature over the header bytes, so the model predicts `err` and `ok` violates the property;
     -- the header itself → `ok` expected (SigScheme hypothesis; no verdict, a deviation is a broken tie).
-    if (label.splitOn "empty-message").length > 1 then
+    -- `no-signature-packet-*`: the blob holds no signature packet at all → nobody signed anything.
+    if (label.splitOn "empty-message").length > 1 || (label.splitOn "no-signature-packet").length > 1 then
       let v := if impl == "verify=ok" then "fails:unsigned-header-accepted"
         else if impl == "verify=err" || impl == "verify=parse-err" then "holds" else "dontcare"
       answer "verify=err" v s!"reg-{label}:{impl}"
